@@ -105,3 +105,9 @@ check('C14', 'model_checking',
       'every single deviation and pair of deviations of the parameter alphabet through dump_file / tomllib / read_file / BIOGEME; every accepted boolean spelling; every report writer parsed for a complete parameter listing; all 256 pre-states of the naming helper.',
       'datetime.now() frozen; bootstrap resamples a fixed tape; __*.iter files excluded (C15); fewer than 100 files per name; validate limited to the first 2 / 3 positions; the BFS frontier at the depth bound is reported, not expanded.',
       'explicit-state BFS over output-generation histories in pre-populated directories against a reference directory model; exhaustive round-trip enumeration', 'DESIGN.md section 4, C14')
+check('C18', 'exploration',
+      'Every MDCEV consumer problem in a finite space - 4 utility variants x outside good none/each position x prices x scale x 2-3 parameter sets x 2 rows x 2-3 budgets x all 27 error draws from {-1,0,1}^3 - is solved by the real forecast_bisection_one_draw / forecast under 12 (thorough 76) integer labelings. '
+      'Each answer is compared with a plain-Python reference optimum, KKT conditions, the library\'s brute-force optimiser and the answers under the other labelings. The numeric, symbolic (engine) and closed-form utility, derivative and inverse are compared on a grid, and all operation histories over '
+      '{set parameters A/B, forecast, pieces, validation} to depth 3 (4) are checked against the reference with the current parameters (quick 1.4e5 evaluations, 89-92% corner solutions).',
+      '3 goods only; continuous domains on grids; strictly concave utilities; the epsilon column convention is key_to_index; parameters change only through the estimation_results setter; the engine is trusted for the value and gradient of the symbolic utility.',
+      'bounded exhaustive enumeration of problems x labelings x histories against a reference solver and closed forms', 'DESIGN.md section 4, C18')
